@@ -1,0 +1,46 @@
+// Copyright 2022 ByteDance and its affiliates.
+//
+// Licensed under the Apache License, Version 2.0 (the "License");
+// you may not use this file except in compliance with the License.
+// You may obtain a copy of the License at
+//
+//      http://www.apache.org/licenses/LICENSE-2.0
+//
+// Unless required by applicable law or agreed to in writing, software
+// distributed under the License is distributed on an "AS IS" BASIS,
+// WITHOUT WARRANTIES OR CONDITIONS OF ANY KIND, either express or implied.
+// See the License for the specific language governing permissions and
+// limitations under the License.
+
+//go:build verif
+// +build verif
+
+package clusters
+
+import (
+	"context"
+	"net"
+
+	"k8s.io/client-go/rest"
+)
+
+// VerifDial, when set, replaces the dialer of every per-endpoint transport
+// (simulation seam; only compiled with -tags verif).
+var VerifDial func(ctx context.Context, network, addr string) (net.Conn, error)
+
+// VerifOrderNames, when set, decides the order in which EndpointInfoMap.Names()
+// returns its (map-ordered, hence arbitrary) result.
+var VerifOrderNames func(names []string) []string
+
+func verifHookRESTConfig(cfg *rest.Config) {
+	if VerifDial != nil {
+		cfg.Dial = VerifDial
+	}
+}
+
+func verifOrderNames(names []string) []string {
+	if VerifOrderNames != nil {
+		return VerifOrderNames(names)
+	}
+	return names
+}
